@@ -200,8 +200,8 @@ impl DailyLogsUpdate {
                     }
                     previous_hash = daily_hash;
                 } else {
-                    previous_hash = None;
-                    previous_history = None;
+                    previous_hash = daily_hash;
+                    previous_history = history_hash;
                 }
                 previous_room = room;
                 previous_entity = entity;
@@ -225,7 +225,7 @@ impl DailyLogsUpdate {
                     Some(hash.as_bytes().to_vec())
                 };
 
-                let history_hash = if previous_room.eq(&room) {
+                let history_hash = if previous_room.eq(&room) && previous_entity.eq(&entity) {
                     if let Some(previous) = &previous_history {
                         let mut hasher = blake3::Hasher::new();
                         hasher.update(previous);
